@@ -4,6 +4,7 @@
    from NewRepository on an empty database, with an arbitrary choice of which added blocks become best. *)
 From Coq Require Import List NArith Bool Lia.
 From Verif Require Import Chain.Model Chain.Proofs Chain.ProofsWalk Chain.ProofsSys Chain.ProofsTx Chain.ProofsHeads Chain.Examples.
+From Verif Require Bft.Model Bft.ProofsNode Chain.TipRule.
 Import ListNotations.
 Open Scope N_scope.
 
@@ -48,6 +49,39 @@ Section C14.
     intros R. exact (get_tx_meta_spec g gp r (reachable_wf _ _ _ _ _ Hg R)
                        (reachable_wf_txi _ _ _ _ _ Hg R) (reachable_conf_inj _ _ _ _ _ Hg R) Hgp h x).
   Qed.
+  (* 3a. GetTransaction / GetTransactionReceipt (meta, then the blob under (number, conflicts, index)): the tx returned has
+         the requested id and is the one at that index of a block of the head's own chain; the receipt is the one at
+         the same index of the same block; never an error for a stored head *)
+  Theorem get_transaction_on_chain r h x : reachable g gp tag adm r -> stored r h ->
+    match get_transaction r h x with
+    | Ok (e, t) => tx_id t = x /\ get_tx_meta r h x = Ok e /\
+                   exists a s b, anc r h a /\ num_of a = e_num e /\ get_block r a = Some (s, b) /\
+                                 nth_error (b_txs b) (N.to_nat (e_idx e)) = Some t
+    | NotFound => forall a, ~ incl_on r h x a
+    | Fail => False
+    end.
+  Proof.
+    intros R. exact (get_transaction_spec g gp r (reachable_wf _ _ _ _ _ Hg R)
+                       (reachable_wf_txi _ _ _ _ _ Hg R) (reachable_conf_inj _ _ _ _ _ Hg R) Hgp h x).
+  Qed.
+
+  Theorem get_receipt_on_chain r h x : reachable g gp tag adm r -> stored r h ->
+    match get_receipt r h x with
+    | Ok rc => exists e a s b t, get_tx_meta r h x = Ok e /\ anc r h a /\ num_of a = e_num e /\ get_block r a = Some (s, b) /\
+                 nth_error (b_txs b) (N.to_nat (e_idx e)) = Some t /\ tx_id t = x /\
+                 nth_error (b_rcs b) (N.to_nat (e_idx e)) = Some rc
+    | NotFound => forall a, ~ incl_on r h x a
+    | Fail => False
+    end.
+  Proof.
+    intros R. exact (get_receipt_spec g gp r (reachable_wf _ _ _ _ _ Hg R)
+                       (reachable_wf_txi _ _ _ _ _ Hg R) (reachable_conf_inj _ _ _ _ _ Hg R) Hgp h x).
+  Qed.
+
+  (* 3c. GetConflicts(n) lists exactly the stored blocks of height n *)
+  Theorem conflicts_are_blocks_of_height r n id : In id (get_conflicts r n) <-> stored r id /\ num_of id = n.
+  Proof. exact (get_conflicts_spec r n id). Qed.
+
   (* 3b. the heads store holds exactly the branch tips; ScanHeads(from) lists the tips at heights >= from *)
   Theorem heads_are_tips r from h : reachable g gp tag adm r ->
     (In h (scan_heads r from) <-> is_tip r h /\ from <= num_of h).
@@ -80,6 +114,20 @@ Proof.
            (reachable_best_tip _ _ _ _ Hg R) pos st P).
 Qed.
 
+(* 6. where the premise `tip_rule` of 4/5 comes from.  In the model of the node's fork choice (coq/Bft: bft.Engine.Select =
+      quality, then total score, then the smaller id; Header.BetterThan before FINALITY), for every node state reached by
+      any import history (Bft invariant `inv`) and every new block whose parent is the stored best block, with height
+      parent+1 and a total score strictly above the parent's (consensus.validateBlockHeader: "block total score
+      invalid" otherwise), Select answers true, and so does BetterThan: the block becomes best.  NOT formal: that the
+      `best` flag of the histories of 4/5 is this answer (Node.commitBlock passes becomeBest to repo.AddBlock); the
+      Bft model and the Chain model are two models of the same repository. *)
+Theorem tip_rule_from_fork_choice c nd b p : 0 < Bft.Model.c_L c -> Bft.ProofsNode.inv c nd ->
+  Bft.Tree.find_blk (Bft.Model.n_repo nd) (Bft.Model.n_best nd) = Some p -> Bft.Tree.b_parent b = Bft.Model.n_best nd ->
+  Bft.Tree.b_num b = Bft.Tree.b_num p + 1 -> Bft.Tree.b_score p < Bft.Tree.b_score b ->
+  Bft.Model.select c (Bft.Model.n_repo nd) (Bft.Model.n_eng nd) (Bft.Model.best_blk nd) b = true /\
+  Bft.Model.better_than b (Bft.Model.best_blk nd) = true.
+Proof. exact (Chain.TipRule.child_of_best_is_selected c nd b p). Qed.
+
 (* the premise of 4/5 is needed: outside the node's fork-choice rule Read fails (a stored child of best that is not best) *)
 Example read_below_best_fails :
   read (step_or (step_or ex_r0 ex_b1 0 true) ex_b2 0 false) (bid 2 1) = Fail.
@@ -103,11 +151,35 @@ Proof.
   rewrite <- G. apply path_gen.
 Qed.
 
+(* a subscriber run with a read BEFORE a best change and reads after it: start on (2,2) while (2,1) is best, read
+   (drops (2,2), receives (2,1)), then (3,1) on (2,2) becomes best (sys_add), then two more reads: it holds the new
+   canonical chain *)
+Example ex_c14_sys_interleaved :
+  sys ex_g ex_gp ex_tag ex_r4 (bid 3 1) [bid 3 1; bid 2 2; bid 1 1; ex_g] /\ read ex_r4 (bid 3 1) = Ok ([], bid 3 1).
+Proof.
+  split; [|vm_compute; reflexivity].
+  assert (S0 : sys ex_g ex_gp ex_tag ex_r3 (bid 2 2) [bid 2 2; bid 1 1; ex_g]).
+  { apply sys_start; [exact ex_reachable3_tip|]. assert (G : r_gen ex_r3 = ex_g) by reflexivity.
+    eapply path_step; [vm_compute; reflexivity | vm_compute; discriminate |]. cbn [s_parent].
+    eapply path_step; [vm_compute; reflexivity | vm_compute; discriminate |]. cbn [s_parent]. rewrite <- G. apply path_gen. }
+  assert (S1 : sys ex_g ex_gp ex_tag ex_r3 (bid 2 1) [bid 2 1; bid 1 1; ex_g]).
+  { eapply (sys_read _ _ _ ex_r3 (bid 2 2) _ [(bid 2 2, true); (bid 2 1, false)]); [exact S0 | vm_compute; reflexivity | vm_compute; reflexivity]. }
+  assert (S2 : sys ex_g ex_gp ex_tag ex_r4 (bid 2 1) [bid 2 1; bid 1 1; ex_g]).
+  { eapply (sys_add _ _ _ ex_r3 _ _ ex_b3' 0 true); [exact S1 | vm_compute; repeat split | unfold tip_rule; reflexivity | vm_compute; reflexivity]. }
+  assert (S3 : sys ex_g ex_gp ex_tag ex_r4 (bid 2 2) [bid 2 2; bid 1 1; ex_g]).
+  { eapply (sys_read _ _ _ ex_r4 (bid 2 1) _ [(bid 2 1, true); (bid 2 2, false)]); [exact S2 | vm_compute; reflexivity | vm_compute; reflexivity]. }
+  eapply (sys_read _ _ _ ex_r4 (bid 2 2) _ [(bid 3 1, false)]); [exact S3 | vm_compute; reflexivity | vm_compute; reflexivity].
+Qed.
+
 Print Assumptions index_is_ancestry.
 Print Assumptions index_total.
 Print Assumptions has_block_is_membership.
 Print Assumptions exclude_is_difference.
 Print Assumptions lookup_on_chain.
 Print Assumptions heads_are_tips.
+Print Assumptions get_transaction_on_chain.
+Print Assumptions get_receipt_on_chain.
+Print Assumptions conflicts_are_blocks_of_height.
+Print Assumptions tip_rule_from_fork_choice.
 Print Assumptions reader_converges.
 Print Assumptions reader_reaches_best.
